@@ -189,6 +189,7 @@ impl AsyncFileSystem for AsyncMemoryFS {
         if !found_directory {
             return Err(VfsErrorKind::FileNotFound.into());
         }
+        ensure_dir(&handle.files[path])?;
         Ok(Box::new(futures::stream::iter(entries)))
     }
 
@@ -229,13 +230,18 @@ impl AsyncFileSystem for AsyncMemoryFS {
     async fn create_file(&self, path: &str) -> VfsResult<Box<dyn Write + Send + Unpin>> {
         self.ensure_has_parent(path).await?;
         let content = Arc::new(Vec::<u8>::new());
-        self.handle.write().await.files.insert(
+        let mut handle = self.handle.write().await;
+        if let Some(existing) = handle.files.get(path) {
+            ensure_file(existing)?;
+        }
+        handle.files.insert(
             path.to_string(),
             AsyncMemoryFile {
                 file_type: VfsFileType::File,
                 content,
             },
         );
+        drop(handle);
         let writer = AsyncWritableFile {
             content: Cursor::new(vec![]),
             destination: path.to_string(),
@@ -247,6 +253,7 @@ impl AsyncFileSystem for AsyncMemoryFS {
     async fn append_file(&self, path: &str) -> VfsResult<Box<dyn Write + Send + Unpin>> {
         let handle = self.handle.write().await;
         let file = handle.files.get(path).ok_or(VfsErrorKind::FileNotFound)?;
+        ensure_file(file)?;
         let mut content = Cursor::new(file.content.as_ref().clone());
         content.seek(SeekFrom::End(0)).await?;
         let writer = AsyncWritableFile {
@@ -276,10 +283,9 @@ impl AsyncFileSystem for AsyncMemoryFS {
 
     async fn remove_file(&self, path: &str) -> VfsResult<()> {
         let mut handle = self.handle.write().await;
-        handle
-            .files
-            .remove(path)
-            .ok_or(VfsErrorKind::FileNotFound)?;
+        let file = handle.files.get(path).ok_or(VfsErrorKind::FileNotFound)?;
+        ensure_file(file)?;
+        handle.files.remove(path);
         Ok(())
     }
 
@@ -432,6 +438,13 @@ mod tests {
 fn ensure_file(file: &AsyncMemoryFile) -> VfsResult<()> {
     if file.file_type != VfsFileType::File {
         return Err(VfsErrorKind::Other("Not a file".into()).into());
+    }
+    Ok(())
+}
+
+fn ensure_dir(file: &AsyncMemoryFile) -> VfsResult<()> {
+    if file.file_type != VfsFileType::Directory {
+        return Err(VfsErrorKind::Other("Not a directory".into()).into());
     }
     Ok(())
 }
